@@ -69,7 +69,7 @@ pub fn spec_for(property: &str) -> Option<CheckSpec> {
             level: "exploration",
             profiles: vec![p("seq", 6), p("seq-manyversions", 2), p("seq-maint", 2), p("restart", 2)],
             thorough_extra: vec![],
-            quick_runs: 8_000,
+            quick_runs: 12_000,
             thorough_runs: 400_000,
             quick_budget_s: 60,
             thorough_budget_s: 600,
@@ -97,7 +97,7 @@ pub fn spec_for(property: &str) -> Option<CheckSpec> {
             level: "exploration",
             profiles: vec![p("seq-maint", 16), p("seq-filter", 4), p("seq-maint+forcerace", 2), p("seq-deepindex", 1), p("seq-manyversions+maint", 3), p("seq-maint+opreadfault", 3)],
             thorough_extra: vec![],
-            quick_runs: 8_000,
+            quick_runs: 12_000,
             thorough_runs: 400_000,
             quick_budget_s: 60,
             thorough_budget_s: 600,
@@ -125,7 +125,7 @@ pub fn spec_for(property: &str) -> Option<CheckSpec> {
             level: "exploration",
             profiles: vec![p("seq-filter", 6), p("seq-maint", 2), p("seq", 2), p("seq-filter+readfault", 2)],
             thorough_extra: vec![],
-            quick_runs: 8_000,
+            quick_runs: 12_000,
             thorough_runs: 400_000,
             quick_budget_s: 60,
             thorough_budget_s: 600,
@@ -139,7 +139,7 @@ pub fn spec_for(property: &str) -> Option<CheckSpec> {
             level: "exploration",
             profiles: vec![p("seq", 4), p("seq-maint", 4), p("seq-filter", 1), p("conc", 3), p("conc+fsync", 2), p("crash-kill", 1), p("crash-double", 1)],
             thorough_extra: vec![],
-            quick_runs: 8_000,
+            quick_runs: 12_000,
             thorough_runs: 400_000,
             quick_budget_s: 60,
             thorough_budget_s: 600,
